@@ -98,9 +98,9 @@ def check(run):
     thorough = run.tier == "thorough"
     specs = systematic(0)
     r = gen.rng_for(run.seed, "c01")
-    nrand = 1500 if thorough else 260
+    nrand = 4000 if thorough else 700
     for i in range(nrand):
-        specs.append(strgen.build(r, "R%d" % i, ["EnumString"]))
+        specs.append(strgen.build(r, "R%d" % i, ["EnumString"], allow_braces=True))
     units = []
     spec_by_unit = {}
     for s in specs:
@@ -109,7 +109,7 @@ def check(run):
         spec_by_unit[u.name] = s
     run.rule = RULE
     samples = standard_flow(run, units, deps["std"], vmon, profiles=("fast",), tag="c01")
-    punits = phf_units(r, 300 if thorough else 60, spec_by_unit)
+    punits = phf_units(r, 800 if thorough else 150, spec_by_unit)
     samples.update(standard_flow(run, punits, deps["phf"], vmon, profiles=("fast",), tag="c01p"))
     units = units + punits
     offline_recheck(run, samples, spec_by_unit)
